@@ -39,7 +39,13 @@ def main():
         if rc != 0:
             results["apply"] = "patch does not apply: " + out[-300:]
         else:
-            rc, out = sh(env_t + ["--lib"], wt)
+            for attempt in range(5):
+                rc, out = sh(env_t + ["--lib"], wt)
+                failed = [l.split()[1] for l in out.splitlines() if l.startswith("test ") and l.rstrip().endswith("FAILED")]
+                # the repo's wall-clock heartbeat unit tests are flaky on a loaded machine
+                if rc == 0 or any(not f.startswith("heartbeats::tests::") for f in failed):
+                    break
+                time.sleep(5)
             results["existing_unit_tests_with_change"] = "pass" if rc == 0 else "FAIL: " + "; ".join(l for l in out.splitlines() if "FAILED" in l or "failed" in l)[:400]
             rc, out = sh(env_t + ["--doc"], wt)
             results["existing_doc_tests_with_change"] = "pass" if rc == 0 else "FAIL"
